@@ -1,6 +1,10 @@
 package nitro
 
-import "bytes"
+import (
+	"bytes"
+	"hash/crc32"
+	"os"
+)
 
 // H_C19_file: items written through the backup file writer come back through the file reader as the same byte
 // strings followed by end-of-stream, with equal checksums (CRC-32 is an uninterpreted function here: equality
@@ -88,6 +92,55 @@ func H_C19_v0() {
 	itm, _, err := db.DecodeItem(0, r0.buf, rd)
 	vAssert(itm == nil && err == nil, "v0 end of stream")
 	vReach("c19-v0-done")
+}
+
+// H_C19_v0big: the version-0 framing at the boundaries of its 16-bit length field (1, 255, 256, 2^15-1, 2^15,
+// 2^16-1; forked per item), read through the real file reader from a file laid out by hand; concrete filler
+// bytes (a CRC over 64 KiB of symbolic bytes would be one huge uninterpreted term), so the reader's checksum is
+// compared with the reference XOR of crc(header)^crc(payload) computed concretely.
+func H_C19_v0big() {
+	db := New()
+	DiskBlockSize = vBound("blocksize")
+	lens := [6]int{1, 255, 256, 32767, 32768, 65535}
+	n := vBound("items")
+	var chosen [3]int
+	var file []byte
+	var ref uint32
+	for i := 0; i < n; i++ {
+		l := lens[vChoice("len", i, vBound("nlens"))]
+		chosen[i] = l
+		hdr := []byte{byte(l >> 8), byte(l)}
+		bs := make([]byte, l)
+		for j := range bs {
+			bs[j] = byte(j*5 + i + 1)
+		}
+		ref = ref ^ crc32.ChecksumIEEE(hdr) ^ crc32.ChecksumIEEE(bs)
+		file = append(file, hdr...)
+		file = append(file, bs...)
+	}
+	file = append(file, 0, 0)
+	path := vFSDir() + "/c19-v0big"
+	vAssert(os.WriteFile(path, file, 0644) == nil, "hand-framed file written")
+	r := db.newFileReader(RawdbFile, 0)
+	vAssert(r.Open(path) == nil, "reader opens")
+	for i := 0; i < n; i++ {
+		itm, err := r.ReadItem()
+		vAssert(err == nil && itm != nil, "v0 item decodes")
+		if itm == nil {
+			return
+		}
+		got := itm.Bytes()
+		l := chosen[i]
+		vAssert(len(got) == l, "v0 length round-trips")
+		if len(got) == l {
+			vAssert(got[0] == byte(i+1) && got[l-1] == byte((l-1)*5+i+1), "v0 first and last byte")
+		}
+	}
+	itm, err := r.ReadItem()
+	vAssert(itm == nil && err == nil, "v0 end of stream after the last item")
+	vAssert(r.Checksum() == ref, "v0 reader checksum equals the reference")
+	r.Close()
+	vReach("c19-v0big-done")
 }
 
 // H_C19_kv: KVToBytes/KVFromBytes invert each other; CompareKV orders encoded pairs as bytes.Compare orders keys.
